@@ -49,7 +49,7 @@ def gen_profile(rng, npr, kind=None):
 def correspond(ctx):
     rng, tier = ctx["rng"], ctx["tier"]
     npr = rng.nprng()
-    n = 40 if tier == "quick" else 300
+    n = 40 if tier == "quick" else 900
     cases, meta = [], []
     with warnings.catch_warnings():
         warnings.simplefilter("ignore")
